@@ -15,3 +15,6 @@ pub use self::core::*;
 pub use self::error::*;
 pub use self::expr::types::*;
 pub use self::parser::*;
+
+#[cfg(feature = "verif")]
+pub use self::input::verif as verif_input;
